@@ -7,7 +7,13 @@ import instgen
 from props import common
 
 MODULE = "Rspirv.Props.C03"
-THEOREMS = []
+PS = "Rspirv.Props.ParserSpec."
+THEOREMS = [PS + n for n in ("word_cons", "view_bytes", "string_view", "decodeElem_ref", "decodeElems_ref", "parseOperand_ref",
+                             "parseLiteral_ref", "parseMany_ref", "parseNested_ref", "parseSpecConstantOp_ref", "parseOne_ref",
+                             "loop_ref", "parseInst_ref", "loop_keeps", "parseInst_overrun", "loop_nc", "parseInst_complete",
+                             "parseInst_end")] + \
+           ["Rspirv.Props.C03." + n for n in ("inst_shrinks", "C03_loop", "header_sview", "C03_accept", "C03_header_short",
+                                              "C03_header_magic", "C03")]
 NEEDS = ("header", "core", "decode", "operand_enum", "asm_arms", "parse_operand", "operands")
 BOUNDARY = [0, 1, 2, 0xffff, 0x10000, 0x10001, 0x7fffffff, 0x80000000, 0xffffffff, 0x00030000, 0x0001ffff]
 
@@ -110,14 +116,15 @@ def run(ctx):
         T, fails = C.translate_all(ctx)
         hok, herr = C.build_harness(ctx, bins=("impl",))
         have = C.need(ctx, *NEEDS)
-        failing = C.prove(ctx, MODULE, THEOREMS, extra_targets=["driver"], files=["Rspirv/Props/C03.lean"]) if have else []
+        failing = C.prove(ctx, MODULE, THEOREMS, extra_targets=["driver"], files=["Rspirv/Props/C03.lean", "Rspirv/Props/ParserSpec.lean", "Rspirv/Model/Spec.lean", "Rspirv/Model/Parser.lean", "Rspirv/Model/Decoder.lean"]) if have else []
     for n, e in failing:
         ctx.issue(f"theorem:{n}", f"Lean obligation no longer checks: {e['msg'][:300]}", witness=e)
     if not hok:
         ctx.issue("harness-build", "the harness no longer builds against the working tree: " + herr[-400:])
         return C.finish(ctx)
-    if not have or any(n == "<build>" for n, _ in failing):
-        return C.finish(ctx)
+    broken = not have or any(n == "<build>" for n, _ in failing)
+    if broken:
+        T = T if have else C.load_pinned_T()
     corpus = []
     cdir = os.path.join(C.VERIF, "corpus", "C03")
     for f in sorted(os.listdir(cdir)):
@@ -132,7 +139,24 @@ def run(ctx):
         return oracle_for(m)(req, resp)
 
     reqs = corpus + [r for r, _ in cases]
+    if broken:
+        found = C.oracle_search(ctx, reqs, oracle, "parse")
+        ctx.log(f"tie broken; oracle search on the implementation found a failing input: {found}")
+        return C.finish(ctx)
     impl, model = C.differential(ctx, reqs, "parse", oracle=oracle, shrink=False)
+    # recorded finding: the Khronos grammar gives Decoration::BankBitsINTEL a variadic literal parameter, the parser reads one
+    hdrT = T["header"]
+    g0 = instgen.Gen(T, random.Random(0))
+    dec = dict(hdrT["enum_by_name"]["Decoration"]["decl"]).get("BankBitsINTEL")
+    if dec is not None:
+        w = instgen.header(bound=9) + [(5 << 16) | g0.opv["Decorate"], 1, dec, 1, 2]
+        r = "parse " + instgen.to_bytes(w).hex()
+        a = C.run_impl(ctx, [r])[0]
+        ctx.evaluations += 1
+        if not a.startswith("ok"):
+            ctx.issue("C03:enumerant-parameter-quantifier:BankBitsINTEL",
+                      "OpDecorate %1 BankBitsINTEL 1 2 (two bank bits) is rejected: " + a.split(" | ")[0],
+                      witness={"request": r, "implementation": a}, found_input=True, kind="oracle")
     kinds = {}
     for a in impl:
         k = a.split(" | ")[0].split(":")[0]
